@@ -21,6 +21,11 @@ class Unknown(Exception):
     pass
 
 
+class ModelError(Exception):
+    """The modelled program itself fails in this model (e.g. jax.tree_util.tree_map over a tuple and a list)."""
+    pass
+
+
 class Opq:
     """Opaque structural value: equal iff built from equal parts; truthiness and length are not known."""
     __slots__ = ("parts",)
@@ -157,7 +162,9 @@ class Model:
         for t in trees[1:]:
             c2 = self.children(t, None)
             if c2 is None or len(c2[0]) != len(kids):
-                raise Unknown("tree_map over trees of different structure")
+                raise ModelError(f"tree_map over trees of different structure: {trees[0]!r} vs {t!r}")
+            if type(t) is not type(trees[0]) and isinstance(t, (list, tuple, dict)):
+                raise ModelError(f"tree_map: pytree structure error, {type(trees[0]).__name__} vs {type(t).__name__}")
             others.append(c2[0])
         return rebuild([self.tree_map(f, [kids[i]] + [o[i] for o in others], is_leaf) for i in range(len(kids))])
 
@@ -538,6 +545,28 @@ class Model:
             if self.truth(c) != bool(v):
                 return False
         return True
+
+
+class TreeDef:
+    """Model tree definition: 'args' -> tuple of leaves, 'kwargs' -> (tuple(leaves[:-1]), {'kw': leaves[-1]}), 'single' -> the bare leaf,
+    'out' -> the bare leaf for one leaf, else a tuple."""
+    def __init__(self, kind):
+        self.kind = kind
+
+    def __repr__(self):
+        return f"treedef<{self.kind}>"
+
+    def unflatten(self, leaves):
+        leaves = list(leaves)
+        if self.kind == "args":
+            return tuple(leaves)
+        if self.kind == "kwargs":
+            return (tuple(leaves[:-1]), {"kw": leaves[-1]})
+        if self.kind == "single":
+            return leaves[0]
+        if self.kind == "out":
+            return tuple(leaves) if len(leaves) != 1 else leaves[0]
+        raise Unknown("treedef")
 
 
 def stacked(v):
